@@ -86,7 +86,81 @@ def rule_i2(ctx):
     ctx.check(ok, "I3-method-bits", f"{EH}:<module>", "three distinct single-bit flags", f"{EH}:0", f"method flags {vals}", "distinct powers of two")
 
 
+def rule_i4(ctx):
+    """compute_context_additions keeps only candidates that retain EVERY node of the host tree (the re-insertion it relies on is known to lose nodes)."""
+    f = ctx.repo.func(EH, "compute_context_additions", "C13.I4")
+    c = f"{EH}:compute_context_additions"
+    rets = [r for r in walk_local(f) if isinstance(r, ast.Return) and isinstance(r.value, ast.ListComp)]
+    if len(rets) != 1:
+        raise Unrecognised("C13.I4", c, "filtered result comprehension not found")
+    comp = rets[0].value
+    cand = src(comp.elt)
+    alls = [x for x in ast.walk(comp) if isinstance(x, ast.Call) and call_name(x) == "all" and x.args and isinstance(x.args[0], ast.GeneratorExp)
+            and len(x.args[0].generators) == 1 and src(x.args[0].generators[0].iter) == "in_tree.paths()"]
+    if not alls:
+        raise Unrecognised("C13.I4", c, "no retention filter over in_tree.paths() in the result comprehension")
+    for a in alls:
+        g = a.args[0].generators[0]
+        elt_ok = src(a.args[0].elt) == f"{cand}.find_node(node.id) is not None" and src(g.target) == "(_, node)"
+        if not elt_ok:
+            raise Unrecognised("C13.I4", c, f"retention condition `{src(a.args[0].elt)}` not understood")
+        ctx.check(not g.ifs, "I4-context-addition-retention", c, "every node of in_tree.paths() must be found in the candidate", site(a),
+                  f"the retention filter skips host nodes (`if {src(g.ifs[0]) if g.ifs else ''}`): a candidate that lost such a node (e.g. one of two epsilon-expanded occurrences of a nullable "
+                  "nonterminal) passes the filter and reaches insert_tree's gate, which then fails instead of the candidate being discarded", "unfiltered quantification over all nodes")
+    src_ok = any(isinstance(g.iter, ast.Name) and g.iter.id == "result" for g in comp.generators)
+    ctx.check(src_ok, "I4-context-addition-retention", c, "candidates come from insert_trees(...)", site(comp), "filtered list is not the insert_trees result", "result of insert_trees")
+
+
+def rule_i5(ctx):
+    """wrap_in_tree_starting_in: the wrapper follows a NON-trivial derivation path and continues it through exactly one child per step."""
+    f = ctx.repo.func(EH, "wrap_in_tree_starting_in", "C13.I5")
+    c = f"{EH}:wrap_in_tree_starting_in"
+    dp = [a for a in walk_local(f) if isinstance(a, ast.Assign) and src(a.targets[0]) == "derivation_path"]
+    if len(dp) != 1:
+        raise Unrecognised("C13.I5", c, "derivation_path binding not found")
+    calls = [call_name(x) for x in calls_in(dp[0].value)]
+    if "graph.shortest_non_trivial_path" in calls:
+        ctx.ok("I5-wrapper-path", c, "derivation path is non-trivial", site(dp[0]), "graph.shortest_non_trivial_path(start_node, end_node)")
+    elif "graph.shortest_path" in calls:
+        ctx.viol("I5-wrapper-path", c, "derivation path is non-trivial", site(dp[0]),
+                 "the wrapper path is graph.shortest_path(start, end): when the open leaf carries the same (recursive) nonterminal as the root of the tree to insert the path is the single node, "
+                 "no wrapper is built and the result is a childless node that does not contain the inserted tree")
+    else:
+        raise Unrecognised("C13.I5", c, f"derivation path computed by {calls}")
+    loops = [n for n in walk_local(f) if isinstance(n, ast.For) and "shortest_alt_for_path_nonterminal" in src(n.iter)]
+    if len(loops) != 1:
+        raise Unrecognised("C13.I5", c, "loop over the chosen alternative not found")
+    lp = loops[0]
+    tests = [n for n in lp.body if isinstance(n, ast.If)]
+    if len(tests) != 1:
+        raise Unrecognised("C13.I5", c, "continuation test not found")
+    t = tests[0].test
+    by_index = isinstance(t, ast.Compare) and isinstance(t.ops[0], ast.Eq) and {src(t.left), src(t.comparators[0])} == {"alt_idx", "idx_of_next_nonterminal"} and src(lp.iter) == "enumerate(shortest_alt_for_path_nonterminal)"
+    by_symbol = isinstance(t, ast.Compare) and isinstance(t.ops[0], ast.Eq) and "next_nonterminal" in {src(t.left), src(t.comparators[0])}
+    if by_index:
+        ctx.ok("I5-wrapper-path", c, "exactly one child continues the path (selected by position)", site(t), "alt_idx == idx_of_next_nonterminal")
+    elif by_symbol:
+        ctx.viol("I5-wrapper-path", c, "exactly one child continues the path (selected by position)", site(t),
+                 f"the continuing child is selected by symbol equality (`{src(t)}`): an expansion that mentions the next nonterminal twice (<pair> ::= <item>,<item>) gets two continuation children, "
+                 "the second one a closed childless nonterminal - an invalid derivation tree")
+    else:
+        raise Unrecognised("C13.I5", c, f"continuation test `{src(t)}` not understood")
+    idx = [a for a in walk_local(f) if isinstance(a, ast.Assign) and src(a.targets[0]) == "idx_of_next_nonterminal"]
+    ok = len(idx) == 1 and src(idx[0].value).replace("\n", "").replace(" ", "") == "shortest_alt_for_path_nonterminal.index(next_nonterminal)"
+    desc = [a for a in lp.body if False]
+    nxt = [a for a in walk_local(f) if isinstance(a, ast.Assign) and src(a.targets[0]) == "curr_tree" and isinstance(a.value, ast.Subscript)]
+    ok2 = len(nxt) == 1 and "".join(src(nxt[0].value).split()) in ("curr_tree[1][idx_of_next_nonterminal]", "curr_tree[1][shortest_alt_for_path_nonterminal.index(next_nonterminal)]")
+    if not (ok2 and (ok or not by_index)):
+        raise Unrecognised("C13.I5", c, "descent into the continuation child not in the recognised shape")
+    ctx.ok("I5-wrapper-path", c, "descends into the continuation child", site(nxt[0]), "curr_tree[1][index of next nonterminal]")
+    # open siblings: nonterminal siblings stay open (None), terminal siblings are closed leaves
+    sib = [x for x in ast.walk(lp) if isinstance(x, ast.Tuple) and len(x.elts) == 2 and src(x.elts[1]) == "None if is_nonterminal(alt_symbol) else []"]
+    ctx.check(len(sib) == 1 and src(sib[0].elts[0]) == "alt_symbol", "I5-wrapper-path", c, "siblings: nonterminals open, terminals closed", site(lp), "sibling construction changed", "(alt_symbol, None if is_nonterminal(alt_symbol) else [])")
+
+
 def run(ctx) -> str:
+    ctx.guarded("I4", lambda: rule_i4(ctx))
+    ctx.guarded("I5", lambda: rule_i5(ctx))
     ctx.guarded("I1", lambda: rule_i1(ctx))
     ctx.guarded("I2", lambda: rule_i2(ctx))
     ctx.assume("asserts are enabled (the validity and retention gates are assert statements); grammar_graph.tree_is_valid is correct")
